@@ -1,5 +1,6 @@
 import H3.Lemmas.Iso
 import H3.Lemmas.IsoLift
+import H3.Lemmas.IsoPolled
 import H3.Props.C03
 /-! # C07 — faults confined to one request never harm the connection or other requests
 
@@ -525,6 +526,154 @@ theorem C07_healthy_stream_delivers_partial (cfg : Cfg) (hist : List HEv) (hs : 
     cases tr <;> exact hdel
   exact healthy_of_outcome cfg hist hs j ps fuel hj h (payloads mid) tr hdel' hh htr
 
+/-! #### the stream's own polls interleaved with its own deliveries
+
+The realistic schedule: the application's task is polled, answers `Pending`, more bytes arrive, it
+is polled again.  `follows cfg fuel .head none {} evs` (decidable): every call among the events
+`evs` of the stream is the one the documented pattern makes at that point, given what the
+application has been answered so far — `resolve_request`/`recv_response` polled until it answers,
+then the body task (`recv_data` until it answers something else than data, `recv_trailers` after a
+clean end) polled until it completes, nothing after —, peer events anywhere in between.
+`digest obs`: what the application has been given, the `Pending` answers left out. -/
+
+/-- **C07, a healthy stream under every schedule of its own task** (hypothesis (2) of
+    `C07_healthy_stream_delivers` gone).  A healthy stream `j` of ANY history in which no stream is
+    told a connection-level error: its transport events are the bytes of a valid message cut into
+    non-empty chunks `cs` in any way, then FIN; its application follows the documented receive
+    pattern, every call polled again while it answers `Pending`; deliveries and polls of `j` are
+    interleaved in ANY way (and with every other stream's events, faults and driver polls); the last
+    poll of the body task comes after FIN.  Then, the `Pending` answers left out, `j`'s application
+    has been given: the head `h`, once; by the `recv_data` calls pieces `ps` with
+    `ps.flatten = ds.flatten` — exactly the DATA payloads of ITS stream, in order, each byte once —
+    then the end of the body, once; by `recv_trailers` the trailers iff present; no error; h3 has
+    neither reset nor stopped the stream; the cell is empty, `close` was never called.  This is the
+    digest of the run with all deliveries first (`C07_healthy_stream_delivers`), for every schedule.
+
+    Hypotheses that remain: chunks non-empty; no DATA frame of `usize::MAX` bytes; the oracle accepts
+    the head block as a head and the trailer block as trailers, within the limit (nothing is asked
+    about the blocks in the other position); the loop bound of a `body` poll exceeds the number of
+    frame-layer tokens of the message. -/
+theorem C07_healthy_stream_delivers_polled (cfg : Cfg) (hist : List HEv) (hs : StreamScoped cfg hist) (j : Nat)
+    (cs : List ReqRecv.Bytes) (fuel : Nat) (h : ReqRecv.Bytes) (ds : List ReqRecv.Bytes) (tr : Option ReqRecv.Bytes)
+    (hpeers : peersOf (proj j hist) = cs.map Peer.chunk ++ [Peer.fin])
+    (hfollow : follows cfg fuel .head none {} (proj j hist) = true)
+    (hlast : (proj j hist).getLast? = some (.call (.body fuel)))
+    (hne : ∀ b ∈ cs, b ≠ [])
+    (hmsg : H3.FS.run H3.FS.frameDec (.hdr []) cs.flatten = (.hdr [], msgToks h ds tr))
+    (hlen : ∀ d ∈ ds, d.length < H3.FS.USIZE_MAX)
+    (hh : cfg.hdr.head h = .ok) (hT : ∀ t, tr = some t → cfg.hdr.trailer t = .ok)
+    (hfuel : (msgToks h ds tr).length < fuel) :
+    ∃ ps : List ReqRecv.Bytes, ps.flatten = ds.flatten ∧
+      (digest (obsOf j (run cfg {} hist).2)).heads = [.res (.head h)] ∧
+      (digest (obsOf j (run cfg {} hist).2)).body = ps.map .data ++ [.end_] ∧
+      (digest (obsOf j (run cfg {} hist).2)).trailers = [.res (trRes tr)] ∧
+      ((run cfg {} hist).1.get j).rx.env = {} ∧
+      (run cfg {} hist).1.cell = none ∧ (run cfg {} hist).1.closed = [] := by
+  have hq := quiet_of_streamScoped cfg hist hs
+  obtain ⟨hcell, hclosed, hview⟩ := run_decomposes cfg hist {} rfl rfl hq
+  have hv := (hview j).1
+  have hg : ({} : Conn).get j = ({} : Req) := rfl
+  rw [hg] at hv
+  simp only [view, Prod.mk.injEq] at hv
+  have hw : Wire cs.flatten (msgToks h ds tr) := ⟨hmsg, noRaw_of_msgToks _ _ h ds tr hmsg hlen⟩
+  have hscript : fsScript (peersOf (proj j hist)) = cs.map H3.FS.Ev.chunk ++ [H3.FS.Ev.fin] := by
+    rw [hpeers, fsScript_chunks_fin]
+  obtain ⟨ph', b', _, hr, hgok, hdone⟩ := polled_run hw cfg hh hT fuel hfuel cs hne rfl (proj j hist) .head [] [] {} {}
+    (rinv_init _ h ds tr) rfl (by rw [List.nil_append, hscript]; exact List.prefix_refl _) hfollow
+  have hph : ph' = .done := hdone (by rw [List.nil_append, hscript]; simp) hlast
+  subst hph
+  obtain ⟨h1, ⟨ps, h2, h3⟩, h4⟩ := hgok
+  rw [hv.1, hv.2]
+  exact ⟨ps, h3, h1, h2, h4, hr.2.1, hcell, hclosed⟩
+
+/-- **... and at every point before that**: whatever part of the stream's events has arrived (`cs`
+    is the whole cutting; the events of `j` in `hist` carry a prefix of it, FIN or not), whatever the
+    application's task has been polled so far: it has been given nothing, or the head `h` and pieces
+    `ps` whose concatenation is a PREFIX of the stream's own DATA payloads `ds.flatten`; the end of
+    the body has been reported only with all of them handed over; trailers only after that, and only
+    the stream's own; never an error; nothing reset or stopped on `j`; connection open. -/
+theorem C07_healthy_stream_prefix_polled (cfg : Cfg) (hist : List HEv) (hs : StreamScoped cfg hist) (j : Nat)
+    (cs : List ReqRecv.Bytes) (fuel : Nat) (h : ReqRecv.Bytes) (ds : List ReqRecv.Bytes) (tr : Option ReqRecv.Bytes)
+    (hpeers : fsScript (peersOf (proj j hist)) <+: cs.map H3.FS.Ev.chunk ++ [H3.FS.Ev.fin])
+    (hfollow : follows cfg fuel .head none {} (proj j hist) = true)
+    (hne : ∀ b ∈ cs, b ≠ [])
+    (hmsg : H3.FS.run H3.FS.frameDec (.hdr []) cs.flatten = (.hdr [], msgToks h ds tr))
+    (hlen : ∀ d ∈ ds, d.length < H3.FS.USIZE_MAX)
+    (hh : cfg.hdr.head h = .ok) (hT : ∀ t, tr = some t → cfg.hdr.trailer t = .ok)
+    (hfuel : (msgToks h ds tr).length < fuel) :
+    let g := digest (obsOf j (run cfg {} hist).2)
+    (∃ ps : List ReqRecv.Bytes, ps.flatten <+: ds.flatten ∧
+      ((g.heads = [] ∧ g.body = [] ∧ g.trailers = []) ∨
+       (g.heads = [.res (.head h)] ∧ g.body = ps.map .data ∧ g.trailers = []) ∨
+       (g.heads = [.res (.head h)] ∧ g.body = ps.map .data ++ [.end_] ∧ ps.flatten = ds.flatten ∧
+          (g.trailers = [] ∨ g.trailers = [.res (trRes tr)])))) ∧
+    ((run cfg {} hist).1.get j).rx.env = {} ∧
+    (run cfg {} hist).1.cell = none ∧ (run cfg {} hist).1.closed = [] := by
+  intro g
+  have hq := quiet_of_streamScoped cfg hist hs
+  obtain ⟨hcell, hclosed, hview⟩ := run_decomposes cfg hist {} rfl rfl hq
+  have hv := (hview j).1
+  have hg : ({} : Conn).get j = ({} : Req) := rfl
+  rw [hg] at hv
+  simp only [view, Prod.mk.injEq] at hv
+  have hw : Wire cs.flatten (msgToks h ds tr) := ⟨hmsg, noRaw_of_msgToks _ _ h ds tr hmsg hlen⟩
+  obtain ⟨ph', b', _, hr, hgok, _⟩ := polled_run hw cfg hh hT fuel hfuel cs hne rfl (proj j hist) .head [] [] {} {}
+    (rinv_init _ h ds tr) rfl (by rw [List.nil_append]; exact hpeers) hfollow
+  have hpre := rinv_prefix hw hr
+  have hgd : g = List.foldl Dig.add {} (Req.run cfg none {} (proj j hist)).2.2 := by
+    show digest _ = _
+    rw [hv.2]; rfl
+  rw [hv.1]
+  refine ⟨?_, hr.2.1, hcell, hclosed⟩
+  rw [hgd]
+  cases ph' with
+  | head =>
+    simp only [GOK] at hgok
+    rw [hgok]
+    exact ⟨[], List.nil_prefix, Or.inl ⟨rfl, rfl, rfl⟩⟩
+  | body =>
+    obtain ⟨h1, ⟨ps, h2, h3⟩, h4⟩ := hgok
+    exact ⟨ps, by rw [h3]; exact hpre, Or.inr (Or.inl ⟨h1, h2, h4⟩)⟩
+  | trailers =>
+    obtain ⟨h1, ⟨ps, h2, h3⟩, h4⟩ := hgok
+    exact ⟨ps, by rw [h3]; exact List.prefix_refl _, Or.inr (Or.inr ⟨h1, h2, h3, Or.inl h4⟩)⟩
+  | done =>
+    obtain ⟨h1, ⟨ps, h2, h3⟩, h4⟩ := hgok
+    exact ⟨ps, by rw [h3]; exact List.prefix_refl _, Or.inr (Or.inr ⟨h1, h2, h3, Or.inr h4⟩)⟩
+
+/-- **Neither the cutting nor the schedule of its own task matters.**  Two runs of a healthy stream
+    carrying the same message bytes — in different histories, on different stream ids, with
+    different neighbours and faults, the bytes cut differently, the task polled at different moments
+    (in particular: polled only after everything has arrived, as in `C07_healthy_stream_delivers`,
+    versus polled after every chunk) — give the application the same head, the same body bytes and
+    the same trailers. -/
+theorem C07_healthy_stream_schedule_irrelevant (cfg : Cfg) (hist₁ hist₂ : List HEv)
+    (hs₁ : StreamScoped cfg hist₁) (hs₂ : StreamScoped cfg hist₂) (j₁ j₂ : Nat)
+    (cs₁ cs₂ : List ReqRecv.Bytes) (fuel₁ fuel₂ : Nat) (h : ReqRecv.Bytes) (ds : List ReqRecv.Bytes) (tr : Option ReqRecv.Bytes)
+    (hbytes : cs₂.flatten = cs₁.flatten)
+    (hp₁ : peersOf (proj j₁ hist₁) = cs₁.map Peer.chunk ++ [Peer.fin])
+    (hp₂ : peersOf (proj j₂ hist₂) = cs₂.map Peer.chunk ++ [Peer.fin])
+    (hf₁ : follows cfg fuel₁ .head none {} (proj j₁ hist₁) = true)
+    (hf₂ : follows cfg fuel₂ .head none {} (proj j₂ hist₂) = true)
+    (hl₁ : (proj j₁ hist₁).getLast? = some (.call (.body fuel₁)))
+    (hl₂ : (proj j₂ hist₂).getLast? = some (.call (.body fuel₂)))
+    (hne₁ : ∀ b ∈ cs₁, b ≠ []) (hne₂ : ∀ b ∈ cs₂, b ≠ [])
+    (hmsg : H3.FS.run H3.FS.frameDec (.hdr []) cs₁.flatten = (.hdr [], msgToks h ds tr))
+    (hlen : ∀ d ∈ ds, d.length < H3.FS.USIZE_MAX)
+    (hh : cfg.hdr.head h = .ok) (hT : ∀ t, tr = some t → cfg.hdr.trailer t = .ok)
+    (hfuel₁ : (msgToks h ds tr).length < fuel₁) (hfuel₂ : (msgToks h ds tr).length < fuel₂) :
+    let g₁ := digest (obsOf j₁ (run cfg {} hist₁).2)
+    let g₂ := digest (obsOf j₂ (run cfg {} hist₂).2)
+    g₁.heads = g₂.heads ∧ bodyBytes g₁.body = bodyBytes g₂.body ∧ g₁.trailers = g₂.trailers := by
+  intro g₁ g₂
+  obtain ⟨ps₁, a1, a2, a3, a4, _⟩ := C07_healthy_stream_delivers_polled cfg hist₁ hs₁ j₁ cs₁ fuel₁ h ds tr hp₁ hf₁ hl₁
+    hne₁ hmsg hlen hh hT hfuel₁
+  obtain ⟨ps₂, b1, b2, b3, b4, _⟩ := C07_healthy_stream_delivers_polled cfg hist₂ hs₂ j₂ cs₂ fuel₂ h ds tr hp₂ hf₂ hl₂
+    hne₂ (by rw [hbytes]; exact hmsg) hlen hh hT hfuel₂
+  refine ⟨a2.trans b2.symm, ?_, a4.trans b4.symm⟩
+  show bodyBytes (digest _).body = bodyBytes (digest _).body
+  rw [a3, b3, bodyBytes_data_append, bodyBytes_data_append, a1, b1]
+
 end Healthy
 
 /-! ### non-vacuity: three concurrent requests, one RESET, one malformed, interleaved -/
@@ -786,6 +935,111 @@ example : ∃ rs : List Res,
 example : obsOf 4 (run srv {} hist₄).2 =
     [.quiet, .ans (.res (.head [0xaa, 0xbb])), .quiet, .body [.errReset 7] none] := by decide +kernel
 example : obsOf 8 (run srv {} hist₄).2 = [.quiet, .ans (.res (.errStream 270)), .noHandle] := by decide +kernel
+
+/-! `C07_healthy_stream_delivers_polled`: stream 0's task is polled BETWEEN its deliveries — the head
+    call answers `Pending` on a cut frame header, the body task answers `Pending` three times (on a
+    cut DATA header, inside a DATA payload, at the grease frame waiting for FIN) — while stream 4 is
+    reset inside a DATA payload and stream 8 carries a malformed head. -/
+def hist₅ : List HEv :=
+  [ chunk 0 [0x01],
+    on 0 (.call .head),
+    chunk 4 [0x01, 0x02, 0xaa, 0xbb, 0x00, 0x05, 0x32],
+    chunk 8 [0x01, 0x01],
+    chunk 0 [0x02, 0xaa, 0xbb, 0x00, 0x00, 0x00],
+    on 4 (.call .head),
+    on 0 (.call .head),
+    .drive,
+    on 0 (.call (.body 20)),
+    chunk 0 [0x02, 0xc1],
+    on 8 (.call .head),
+    on 0 (.call (.body 20)),
+    on 4 (.peer (.reset 7)),
+    chunk 0 [0xc2, 0x21, 0x00],
+    on 0 (.call (.body 20)),
+    chunk 8 [0xee],
+    on 8 (.peer .fin),
+    on 8 (.call .head),
+    on 4 (.call (.body 20)),
+    on 0 (.peer .fin),
+    .drive,
+    on 0 (.call (.body 20)) ]
+
+def cs₅ : List ReqRecv.Bytes := [[0x01], [0x02, 0xaa, 0xbb, 0x00, 0x00, 0x00], [0x02, 0xc1], [0xc2, 0x21, 0x00]]
+
+-- what stream 0's application sees, `Pending` answers included
+example : obsOf 0 (run srv {} hist₅).2 =
+    [.quiet, .ans (.res .pending), .quiet, .ans (.res (.head [0xaa, 0xbb])), .body [.pending] none, .quiet,
+     .body [.data [0xc1], .pending] none, .quiet, .body [.data [0xc2], .pending] none, .quiet,
+     .body [.end_] (some (.res .noTrailers))] := by decide +kernel
+example : follows srv 20 .head none {} (proj 0 hist₅) = true := by decide +kernel
+example : obsOf 4 (run srv {} hist₅).2 =
+    [.quiet, .ans (.res (.head [0xaa, 0xbb])), .quiet, .body [.errReset 7] none] := by decide +kernel
+example : obsOf 8 (run srv {} hist₅).2 = [.quiet, .ans (.res .pending), .quiet, .quiet, .ans (.res (.errStream 270))] := by
+  decide +kernel
+
+example : ∃ ps : List ReqRecv.Bytes, ps.flatten = [0xc1, 0xc2] ∧
+    (digest (obsOf 0 (run srv {} hist₅).2)).heads = [.res (.head [0xaa, 0xbb])] ∧
+    (digest (obsOf 0 (run srv {} hist₅).2)).body = ps.map .data ++ [.end_] ∧
+    (digest (obsOf 0 (run srv {} hist₅).2)).trailers = [.res .noTrailers] ∧
+    ((run srv {} hist₅).1.get 0).rx.env = {} ∧
+    (run srv {} hist₅).1.cell = none ∧ (run srv {} hist₅).1.closed = [] :=
+  C07_healthy_stream_delivers_polled srv hist₅ (by decide +kernel) 0 cs₅ 20 [0xaa, 0xbb] [[], [0xc1, 0xc2]] none
+    (by decide +kernel) (by decide +kernel) (by decide +kernel) (by decide) (by decide +kernel) (by decide)
+    (by decide) (by intro t ht; cases ht) (by decide)
+
+-- ... and after every prefix of that history (FIN not there yet, the task in the middle of the body)
+example : ∀ n ∈ List.range 23, follows srv 20 .head none {} (proj 0 (hist₅.take n)) = true ∧
+    StreamScoped srv (hist₅.take n) := by decide +kernel
+example : (digest (obsOf 0 (run srv {} (hist₅.take 15)).2)).body = [.data [0xc1], .data [0xc2]] := by decide +kernel
+example :
+    let g := digest (obsOf 0 (run srv {} (hist₅.take 15)).2)
+    (∃ ps : List ReqRecv.Bytes, ps.flatten <+: [0xc1, 0xc2] ∧
+      ((g.heads = [] ∧ g.body = [] ∧ g.trailers = []) ∨
+       (g.heads = [.res (.head [0xaa, 0xbb])] ∧ g.body = ps.map .data ∧ g.trailers = []) ∨
+       (g.heads = [.res (.head [0xaa, 0xbb])] ∧ g.body = ps.map .data ++ [.end_] ∧ ps.flatten = [0xc1, 0xc2] ∧
+          (g.trailers = [] ∨ g.trailers = [.res .noTrailers])))) ∧
+    ((run srv {} (hist₅.take 15)).1.get 0).rx.env = {} ∧
+    (run srv {} (hist₅.take 15)).1.cell = none ∧ (run srv {} (hist₅.take 15)).1.closed = [] :=
+  C07_healthy_stream_prefix_polled srv (hist₅.take 15) (by decide +kernel) 0 cs₅ 20 [0xaa, 0xbb] [[], [0xc1, 0xc2]] none
+    (by decide +kernel) (by decide +kernel) (by decide) (by decide +kernel) (by decide)
+    (by decide) (by intro t ht; cases ht) (by decide)
+
+-- the polled run of `hist₅` and the deliveries-first run of `hist₃` (another cutting): the same head, body, trailers
+example :
+    (digest (obsOf 0 (run srv {} (hist₃.take 20)).2)).heads = (digest (obsOf 0 (run srv {} hist₅).2)).heads ∧
+    bodyBytes (digest (obsOf 0 (run srv {} (hist₃.take 20)).2)).body = bodyBytes (digest (obsOf 0 (run srv {} hist₅).2)).body ∧
+    (digest (obsOf 0 (run srv {} (hist₃.take 20)).2)).trailers = (digest (obsOf 0 (run srv {} hist₅).2)).trailers :=
+  C07_healthy_stream_schedule_irrelevant srv (hist₃.take 20) hist₅ (by decide +kernel) (by decide +kernel) 0 0 cs₀ cs₅ 20 20
+    [0xaa, 0xbb] [[], [0xc1, 0xc2]] none (by decide) (by decide +kernel) (by decide +kernel) (by decide +kernel)
+    (by decide +kernel) (by decide +kernel) (by decide +kernel) (by decide) (by decide) (by decide +kernel) (by decide)
+    (by decide) (by intro t ht; cases ht) (by decide) (by decide)
+
+-- trailers, per-byte cutting, a poll after every byte; the block is remembered while `recv_trailers` waits for FIN
+def hist₆ : List HEv :=
+  ([0x01, 0x02, 0xaa, 0xbb].flatMap fun b => [chunk 0 [b], on 0 (.call .head)]) ++
+  [ chunk 4 [0x01, 0x01, 0xee], on 4 (.call .head) ] ++
+  ([0x00, 0x02, 0xc1, 0xc2, 0x01, 0x01, 0xab].flatMap fun b => [chunk 0 [b], on 0 (.call (.body 9)), .drive]) ++
+  [ on 0 (.peer .fin), on 0 (.call (.body 9)) ]
+
+example : obsOf 0 (run cli {} hist₆).2 =
+    [.quiet, .ans (.res .pending), .quiet, .ans (.res .pending), .quiet, .ans (.res .pending), .quiet,
+     .ans (.res (.head [0xaa, 0xbb])),
+     .quiet, .body [.pending] none, .quiet, .body [.pending] none, .quiet, .body [.data [0xc1], .pending] none,
+     .quiet, .body [.data [0xc2], .pending] none, .quiet, .body [.pending] none, .quiet, .body [.pending] none,
+     .quiet, .body [.end_] (some (.res .pending)), .quiet, .body [] (some (.res (.trailers [0xab])))] := by
+  decide +kernel
+
+example : ∃ ps : List ReqRecv.Bytes, ps.flatten = [0xc1, 0xc2] ∧
+    (digest (obsOf 0 (run cli {} hist₆).2)).heads = [.res (.head [0xaa, 0xbb])] ∧
+    (digest (obsOf 0 (run cli {} hist₆).2)).body = ps.map .data ++ [.end_] ∧
+    (digest (obsOf 0 (run cli {} hist₆).2)).trailers = [.res (.trailers [0xab])] ∧
+    ((run cli {} hist₆).1.get 0).rx.env = {} ∧
+    (run cli {} hist₆).1.cell = none ∧ (run cli {} hist₆).1.closed = [] :=
+  C07_healthy_stream_delivers_polled cli hist₆ (by decide +kernel) 0
+    [[0x01], [0x02], [0xaa], [0xbb], [0x00], [0x02], [0xc1], [0xc2], [0x01], [0x01], [0xab]] 9 [0xaa, 0xbb]
+    [[0xc1, 0xc2]] (some [0xab])
+    (by decide +kernel) (by decide +kernel) (by decide +kernel) (by decide) (by decide +kernel) (by decide)
+    (by decide) (by intro t ht; cases ht; decide) (by decide)
 end
 
 end H3.Props.C07
